@@ -56,7 +56,8 @@ def r1(ctx, prog):
                        where=g.loc(iv['i']))
         ex = inn.get(f.cfg.exit)
         if any(st and st['k'] == 'UnaryOperator' and (f.field_of(st['ch'][0]) or '').endswith('Impl::cb_level_') for st in f.stmts):
-            ctx.ob('C16.R1', '%s|balanced' % f.name, ex == 0, 'counter balanced on every path to the exit (min depth %s)' % ex, where=f.loc(f.body))
+            ctx.ob('C16.R1', '%s|balanced' % f.name, ex == 0, 'counter balanced on every path to the exit' if ex == 0 else
+                   'some path reaches the exit with cb_level_ at %s relative to entry' % ex, where=f.loc(f.body))
             # and not over-raised: max depth at exit also 0
             def tr(pt, e, d):
                 if e[0] != 'S':
@@ -66,7 +67,9 @@ def r1(ctx, prog):
                     return d + (1 if st['op'] == '++' else -1)
                 return d
             inn2, _ = f.cfg.forward(0, tr, max)
-            ctx.ob('C16.R1', '%s|balanced-max' % f.name, inn2.get(f.cfg.exit) == 0, 'no path leaves the counter raised (max depth %s)' % inn2.get(f.cfg.exit), where=f.loc(f.body))
+            mx = inn2.get(f.cfg.exit)
+            ctx.ob('C16.R1', '%s|balanced-max' % f.name, mx == 0, 'no path leaves the counter raised' if mx == 0 else
+                   'some path reaches the exit with cb_level_ still raised by %s: every later call sees a callback in progress and refuses (or defers) for ever' % mx, where=f.loc(f.body))
     if n < 8:
         raise AnalysisBroken('expected >=8 user-function invocations in the state machine, found %d' % n)
     for name in ('start', 'stop', 'run'):
@@ -209,6 +212,27 @@ def r3(ctx, prog):
     ctx.ob('C16.R3', '%s|event-before-guard' % f.name, ok, 'the event id test dominates the guard call (guards of non-matching routes are not evaluated)', where=lam.loc(lam.body) if scan_loop is None else f.loc(scan_loop['i']))
 
 
+def r6(ctx, prog):
+    ctx.rule('C16.R6', 'A6 late binding of the transition target: run() resolves the target state by its id at transition time (findState(id), or the built-in terminal state '
+             'when no state with id 0 exists); it never uses a State pointer cached when the route or handler was registered (states may be defined after routes)', floor=1)
+    f = prog.fn1(I + '::run')
+    ws = q.assigns(f, 'Impl::next_state_')
+    if not ws:
+        raise AnalysisBroken('run(): no assignment to next_state_')
+    for a, rhs in ws:
+        r = f.s(f.strip_casts(rhs))
+        kind = None
+        if r is not None and r['k'] in q.CALL_KINDS and r.get('fn') == 'findState':
+            kind = 'findState(id)'
+        elif r is not None and r['k'] == 'UnaryOperator' and r.get('op') == '&' and (f.field_of(r['ch'][0]) or f.path(r['ch'][0])).endswith('_term_state_'):
+            kind = '&_term_state_'
+        elif r is not None and r['k'] in ('CXXNullPtrLiteralExpr', 'GNUNullExpr'):
+            kind = 'nullptr'
+        ctx.ob('C16.R6', '%s|next_state_@%s' % (f.name, f.loc(a['i']).split(':')[-1]), kind is not None, 'next_state_ = %s' % kind if kind else
+               'next_state_ is taken from %s — a pointer stored earlier (when the route was added) instead of a look-up by id now: a state defined after the route '
+               '(e.g. a user-defined state 0) is bypassed, its actions and routes never run' % q.expr_text(f, rhs), where=f.loc(a['i']))
+
+
 def r4(ctx, prog):
     ctx.rule('C16.R4', 'A4 pairing: enter/exit balance at every nesting level: stop() and the transition leave a state through its exit action exactly '
                        'once with a non-null sub-machine stopped first; start() and the transition enter through the enter action and start the sub-machine', floor=5)
@@ -267,5 +291,6 @@ def run(ctx):
     ctx.guard(r2, ctx, prog)
     ctx.guard(r3, ctx, prog)
     ctx.guard(r4, ctx, prog)
+    ctx.guard(r6, ctx, prog)
     ctx.guard(r5, ctx, prog)
     return prog
